@@ -1,10 +1,10 @@
 import Lean.Elab.Tactic
 import H2V.Lemmas.ConnResetPBase
 /-
-  ConnResetP — the `Evolves` relation: how the slab entries of a `Streams` value relate before and
-  after an operation.  `Evolves P N s s'` says: every entry of `s'` either evolved (relation `P`)
-  from the entry of `s` with the same key, or carries a key `s` had not handed out yet and satisfies
-  `N`.  Entries may disappear.  With a reflexive/transitive `P` this composes along any sequence of
+  ConnResetP — the `Evolves` relation: how the slab entries relate before and after an operation.
+  `Evolves P N a b` (on stores) says: every entry of `b` either evolved (relation `P`) from the
+  entry of `a` with the same key, or carries a key `a` had not handed out yet and satisfies `N`.
+  Entries may disappear.  With a reflexive/transitive `P` this composes along any sequence of
   model operations; invariants and monotone quantities of single streams are lifted to whole
   histories through it.
 -/
@@ -20,6 +20,9 @@ structure CoreEq (a b : Stream) : Prop where
 
 theorem CoreEq.rfl' (a : Stream) : CoreEq a a := ⟨rfl, rfl, rfl, rfl⟩
 
+theorem CoreEq.trans {a b c : Stream} (h1 : CoreEq a b) (h2 : CoreEq b c) : CoreEq a c :=
+  ⟨h2.key.trans h1.key, h2.id.trans h1.id, h2.state.trans h1.state, h2.pendingSend.trans h1.pendingSend⟩
+
 /-- what the framework needs of a per-stream step relation `P` and a new-stream predicate `N` -/
 class Good (P : Stream → Stream → Prop) (N : outParam (Stream → Prop)) : Prop where
   trans : ∀ {a b c}, P a b → P b c → P a c
@@ -30,18 +33,40 @@ class Good (P : Stream → Stream → Prop) (N : outParam (Stream → Prop)) : P
 
 theorem Good.refl {P N} [Good P N] (a : Stream) : P a a := Good.core (CoreEq.rfl' a)
 
-structure Evolves (P : Stream → Stream → Prop) (N : Stream → Prop) (s s' : Streams) : Prop where
-  nk : s.store.nextKey ≤ s'.store.nextKey
-  back : ∀ k st', s'.store.get? k = some st' →
-      (∃ st, s.store.get? k = some st ∧ P st st') ∨ (s.store.nextKey ≤ k ∧ N st')
+structure Evolves (P : Stream → Stream → Prop) (N : Stream → Prop) (a b : Store) : Prop where
+  nk : a.nextKey ≤ b.nextKey
+  back : ∀ k st', b.get? k = some st' →
+      (∃ st, a.get? k = some st ∧ P st st') ∨ (a.nextKey ≤ k ∧ N st')
+
+theorem Store.get?_mod (st : Store) (id : Nat) (f : Stream → Stream) (k : Nat)
+    (hf : ∀ x, st.get? id = some x → (f x).key = x.key) :
+    (Store.mod st id f).get? k = if k = id then (st.get? id).map f else st.get? k := by
+  unfold Store.mod
+  cases h : st.get? id with
+  | none =>
+    simp only [Option.map_none]
+    split
+    · next hk => rw [hk, h]
+    · rfl
+  | some x =>
+    have hkey : (f x).key = id := by rw [hf x h, Store.get?_key h]
+    simp only [Store.get?_set, hkey, Option.map_some]
+    split
+    · next hk => rw [hk, h]; rfl
+    · rfl
+
+@[simp] theorem Store.nextKey_mod (st : Store) (id : Nat) (f : Stream → Stream) : (Store.mod st id f).nextKey = st.nextKey := by
+  unfold Store.mod; split <;> rfl
+@[simp] theorem Store.ids_mod (st : Store) (id : Nat) (f : Stream → Stream) : (Store.mod st id f).ids = st.ids := by
+  unfold Store.mod; split <;> rfl
 
 section generic
 variable {P : Stream → Stream → Prop} {N : Stream → Prop} [Good P N]
 
-theorem Evolves.refl (s : Streams) : Evolves P N s s :=
+theorem Evolves.refl (a : Store) : Evolves P N a a :=
   ⟨Nat.le_refl _, fun _ st' h => .inl ⟨st', h, Good.refl st'⟩⟩
 
-theorem Evolves.trans {a b c : Streams} (h1 : Evolves P N a b) (h2 : Evolves P N b c) : Evolves P N a c := by
+theorem Evolves.trans {a b c : Store} (h1 : Evolves P N a b) (h2 : Evolves P N b c) : Evolves P N a c := by
   refine ⟨Nat.le_trans h1.nk h2.nk, fun k st'' h => ?_⟩
   rcases h2.back k st'' h with ⟨st', hb, p2⟩ | ⟨hk, n⟩
   · rcases h1.back k st' hb with ⟨st, ha, p1⟩ | ⟨hk, n⟩
@@ -49,29 +74,14 @@ theorem Evolves.trans {a b c : Streams} (h1 : Evolves P N a b) (h2 : Evolves P N
     · exact .inr ⟨hk, Good.new n p2⟩
   · exact .inr ⟨Nat.le_trans h1.nk hk, n⟩
 
-omit [Good P N] in
-/-- anything that leaves the store alone -/
-theorem Evolves.of_store_eq {s0 s s' : Streams} (h : Evolves P N s0 s) (e : s'.store = s.store) :
-    Evolves P N s0 s' := by
-  refine ⟨by rw [e]; exact h.nk, fun k st' hk => ?_⟩
-  rw [e] at hk; exact h.back k st' hk
-
-omit [Good P N] in
-/-- anything that leaves `get?` and `nextKey` alone (`unlink`) -/
-theorem Evolves.of_get?_eq {s0 s s' : Streams} (h : Evolves P N s0 s)
-    (e : ∀ k, s'.store.get? k = s.store.get? k) (n : s'.store.nextKey = s.store.nextKey) :
-    Evolves P N s0 s' := by
-  refine ⟨by rw [n]; exact h.nk, fun k st' hk => ?_⟩
-  rw [e] at hk; exact h.back k st' hk
-
 /-- replacing one slab entry -/
-theorem Evolves.setStream {s0 s : Streams} (h : Evolves P N s0 s) (x : Stream)
-    (hx : ∀ st, s.store.get? x.key = some st → P st x) : Evolves P N s0 (s.setStream x) := by
+theorem Evolves.set {a b : Store} (h : Evolves P N a b) (x : Stream)
+    (hx : ∀ st, b.get? x.key = some st → P st x) : Evolves P N a (b.set x) := by
   refine h.trans ⟨Nat.le_refl _, fun k st' hk => ?_⟩
-  rw [setStream_get?] at hk
+  rw [Store.get?_set] at hk
   split at hk
   · next e =>
-    cases hg : s.store.get? k with
+    cases hg : b.get? k with
     | none => rw [hg] at hk; cases hk
     | some st =>
       rw [hg] at hk; simp only [Option.map_some, Option.some.injEq] at hk
@@ -79,44 +89,34 @@ theorem Evolves.setStream {s0 s : Streams} (h : Evolves P N s0 s) (x : Stream)
       exact .inl ⟨st, rfl, hx st hg⟩
   · exact .inl ⟨st', hk, Good.refl st'⟩
 
-theorem Evolves.modStream {s0 s : Streams} (h : Evolves P N s0 s) (id : Nat) (f : Stream → Stream)
-    (hf : ∀ st, s.store.get? id = some st → P st (f st)) : Evolves P N s0 (s.modStream id f) := by
-  unfold Streams.modStream
-  cases hg : s.store.get? id with
-  | none => exact h.of_store_eq (by simp)
+theorem Evolves.mod {a b : Store} (h : Evolves P N a b) (id : Nat) (f : Stream → Stream)
+    (hf : ∀ st, b.get? id = some st → P st (f st)) : Evolves P N a (Store.mod b id f) := by
+  unfold Store.mod
+  cases hg : b.get? id with
+  | none => exact h
   | some st =>
     have hp := hf st hg
     have hkey : (f st).key = id := by rw [Good.key hp, Store.get?_key hg]
-    exact h.setStream _ (fun st1 h1 => by rw [hkey, hg] at h1; cases h1; exact hp)
+    exact h.set _ (fun st1 h1 => by rw [hkey, hg] at h1; cases h1; exact hp)
 
-theorem Evolves.modStreamW {s0 s : Streams} (h : Evolves P N s0 s) (id : Nat) (f : Stream → Stream × List String)
-    (hf : ∀ st, s.store.get? id = some st → P st (f st).1) : Evolves P N s0 (s.modStreamW id f) := by
-  unfold Streams.modStreamW
-  cases hg : s.store.get? id with
-  | none => exact h.of_store_eq (by simp)
-  | some st =>
-    have hp := hf st hg
-    have hkey : (f st).1.key = id := by rw [Good.key hp, Store.get?_key hg]
-    refine Evolves.of_store_eq (s := s.setStream (f st).1) ?_ (by simp)
-    exact h.setStream _ (fun st1 h1 => by rw [hkey, hg] at h1; cases h1; exact hp)
+theorem Evolves.unlink {a b : Store} (h : Evolves P N a b) (id : Nat) : Evolves P N a (b.unlink id) :=
+  ⟨h.nk, fun k st' hk => h.back k st' hk⟩
 
 /-- slab removal -/
-theorem Evolves.remove {s0 s s' : Streams} (h : Evolves P N s0 s) (k : Nat)
-    (e : s'.store = s.store.remove k) : Evolves P N s0 s' := by
-  refine h.trans ⟨by rw [e]; exact Nat.le_refl _, fun k' st' hk => ?_⟩
-  rw [e, Store.get?_remove] at hk
+theorem Evolves.remove {a b : Store} (h : Evolves P N a b) (k : Nat) : Evolves P N a (b.remove k) := by
+  refine h.trans ⟨Nat.le_refl _, fun k' st' hk => ?_⟩
+  rw [Store.get?_remove] at hk
   split at hk
   · cases hk
   · exact .inl ⟨st', hk, Good.refl st'⟩
 
 /-- slab insertion -/
-theorem Evolves.insert {s0 s s' : Streams} (h : Evolves P N s0 s) (x : Stream)
-    (hx : N { x with key := s.store.nextKey }) (e : s'.store = (s.store.insert x).1) : Evolves P N s0 s' := by
-  refine h.trans ⟨by rw [e]; exact Nat.le_succ _, fun k st' hk => ?_⟩
-  rw [e] at hk
+theorem Evolves.insert {a b : Store} (h : Evolves P N a b) (x : Stream)
+    (hx : N { x with key := b.nextKey }) : Evolves P N a (b.insert x).1 := by
+  refine h.trans ⟨Nat.le_succ _, fun k st' hk => ?_⟩
   unfold Store.insert Store.get? at hk
   simp only [List.find?_append] at hk
-  cases hg : s.store.slab.find? (·.key == k) with
+  cases hg : b.slab.find? (·.key == k) with
   | some y =>
     rw [hg] at hk; simp only [Option.some_or, Option.some.injEq] at hk
     subst hk; exact .inl ⟨y, hg, Good.refl y⟩
@@ -126,7 +126,7 @@ theorem Evolves.insert {s0 s s' : Streams} (h : Evolves P N s0 s) (x : Stream)
     · next hb =>
       simp only [Option.some.injEq] at hk
       subst hk
-      have : s.store.nextKey = k := by simpa using hb
+      have : b.nextKey = k := by simpa using hb
       exact .inr ⟨by omega, hx⟩
     · cases hk
 
@@ -135,19 +135,16 @@ end generic
 -- ===================================================================== lifting invariants
 
 /-- an invariant of single slab entries -/
-def AllStreams (I : Stream → Prop) (s : Streams) : Prop := ∀ k st, s.store.get? k = some st → I st
+def AllStreams (I : Stream → Prop) (a : Store) : Prop := ∀ k st, a.get? k = some st → I st
 
-theorem Evolves.allStreams {P N} {I : Stream → Prop} {s s' : Streams} (h : Evolves P N s s')
-    (hP : ∀ a b, I a → P a b → I b) (hN : ∀ a, N a → I a) (hs : AllStreams I s) : AllStreams I s' := by
+theorem Evolves.allStreams {P N} {I : Stream → Prop} {a b : Store} (h : Evolves P N a b)
+    (hP : ∀ x y, I x → P x y → I y) (hN : ∀ x, N x → I x) (hs : AllStreams I a) : AllStreams I b := by
   intro k st' hk
   rcases h.back k st' hk with ⟨st, ha, p⟩ | ⟨_, n⟩
   · exact hP _ _ (hs k st ha) p
   · exact hN _ n
 
-end H2V.Lemmas.ConnResetP
-
 -- ===================================================================== tactics
-namespace H2V.Lemmas.ConnResetP
 open Lean Elab Tactic Meta
 
 /-- for every hypothesis `h : e = (x, …)` with `x` a local variable: replace `x` by `e.1` everywhere -/
@@ -172,7 +169,7 @@ elab "ev_hyp" : tactic => withMainContext do
     if ty.getForallBody.isAppOf ``Evolves then
       let hStx ← Term.exprToSyntax d.toExpr
       try
-        evalTactic (← `(tactic| apply $hStx))
+        evalTactic (← `(tactic| with_reducible apply $hStx))
         return
       catch _ => pure ()
   throwError "ev_hyp: no applicable hypothesis"
@@ -181,17 +178,16 @@ elab "ev_hyp" : tactic => withMainContext do
 syntax "core_tac" : tactic
 macro_rules | `(tactic| core_tac) => `(tactic| first | exact ⟨rfl, rfl, rfl, rfl⟩ | (constructor <;> simp <;> done))
 
-/-- one backward step on a goal `Evolves P N s0 (op … s …)`: extended with `macro_rules` after
+/-- one backward step on a goal `Evolves P N a (op … s …).store`: extended with `macro_rules` after
     every lemma -/
 syntax "ev_step" : tactic
-macro_rules | `(tactic| ev_step) => `(tactic| (refine Evolves.of_store_eq (s := ?s) ?h ?e; case e => (simp; rfl)))
-macro_rules
-  | `(tactic| ev_step) => `(tactic| (refine Evolves.modStream ?_ _ _ (fun _ _ => Good.core (by core_tac))))
-macro_rules
-  | `(tactic| ev_step) => `(tactic| (refine Evolves.modStreamW ?_ _ _ (fun _ _ => Good.core (by core_tac))))
+macro_rules | `(tactic| ev_step) => `(tactic| (refine Evolves.mod ?_ _ _ (fun _ _ => Good.core (by core_tac))))
+macro_rules | `(tactic| ev_step) => `(tactic| with_reducible apply Evolves.unlink)
+macro_rules | `(tactic| ev_step) => `(tactic| with_reducible apply Evolves.remove)
 macro_rules | `(tactic| ev_step) => `(tactic| ev_hyp)
 
-/-- repeat `ev_step`, splitting `if`/`match` and eliminating result pairs on the way -/
-macro "ev" : tactic => `(tactic| repeat (first | assumption | exact Evolves.refl _ | ev_step | subst_fst | split))
+/-- repeat `ev_step`, normalising `.store`, splitting `if`/`match` and eliminating result pairs on the way -/
+macro "ev" : tactic =>
+  `(tactic| repeat (first | assumption | exact Evolves.refl _ | ev_step | simp only [crp_store] | subst_fst | split))
 
 end H2V.Lemmas.ConnResetP
